@@ -1,6 +1,67 @@
 """C06 — integers crossing the ABI boundary keep their value or abort."""
+import concurrent.futures
+import os
+import re
+from harness import vlib, m3_ast
 PROP = "C06"
-COQ_FILES = ["Machine.v", "Conv.v", "Conv_proofs.v"]
+COQ_FILES = ["Machine.v", "Conv.v", "Conv_proofs.v", "ConvAst.v"]
+M3 = {}
+
+
+def pre_generate(ctx):
+    """M3: translate clang's AST of the 225 instantiated convert_type_fundamental functions into programs of
+    coq/ConvAst.v and let the kernel prove, for each, that it equals the specification on EVERY source value"""
+    M3.clear()
+    try:
+        progs = m3_ast.translate(vlib.INCLUDE, ctx.build)
+    except m3_ast.Unknown as ex:
+        M3["error"] = "translator: " + str(ex)
+        return
+    shards = m3_ast.emit(progs, 5)
+    lock = vlib.coq_lock()
+    try:
+        for i, sh in enumerate(shards):
+            with open(os.path.join(vlib.COQ, "Gen_ConvPrograms_%d.v" % i), "w") as f:
+                f.write(sh)
+
+        def one(i):
+            return i, vlib.sh(["timeout", "600", "coqc", "-Q", ".", "RLBoxV", "Gen_ConvPrograms_%d.v" % i], cwd=vlib.COQ, timeout=700)
+        with concurrent.futures.ThreadPoolExecutor(max_workers=5) as ex:
+            res = list(ex.map(one, range(len(shards))))
+    finally:
+        lock.close()
+    M3["programs"] = len(progs)
+    M3["lemmas"] = sum(sh.count("Lemma ") for sh in shards)
+    M3["failed"] = []
+    for i, (rc, out) in res:
+        if rc != 0:
+            m = re.search(r'line (\d+)', out)
+            name = "?"
+            if m:
+                lines = shards[i].splitlines()
+                ln = int(m.group(1))
+                for k in range(min(ln, len(lines)) - 1, -1, -1):
+                    if lines[k].startswith("Lemma ") or lines[k].startswith("Definition "):
+                        name = lines[k].split()[1]
+                        break
+            M3["failed"].append((name, out[-1500:]))
+    M3["sample"] = {"%s<-%s" % k: str(v) for k, v in list(progs.items())[7::50]}
+
+
+def extra_checks(ctx, exes):
+    if "error" in M3:
+        ctx.violations.append({"kind": "broken-correspondence", "case": "M3 translation of convert_type_fundamental", "impl": "", "model": "", "spec": "", "class": "m3",
+                               "what": "the AST translator no longer understands the instantiated function: " + M3["error"]})
+        return
+    n = M3.get("lemmas", 0)
+    ctx.coverage["obligations"] = ctx.coverage.get("obligations", 0) + n
+    ctx.coverage["discharged"] = ctx.coverage.get("discharged", 0) + (n if not M3["failed"] else 0)
+    ctx.coverage["m3_ast_programs"] = M3.get("programs", 0)
+    ctx.coverage["m3_generated_lemmas_proved_for_all_values"] = n if not M3["failed"] else 0
+    ctx.coverage["m3_samples"] = M3.get("sample", {})
+    for name, out in M3["failed"][:3]:
+        ctx.violations.append({"kind": "broken-proof", "case": "Gen_ConvPrograms: " + name, "impl": "", "model": out, "spec": "", "class": "m3",
+                               "what": "the program translated from the AST of this instantiation is no longer provably equal to 'value preserved iff representable, else abort' for all source values"})
 KINDS = ["bool", "char", "schar", "uchar", "short", "ushort", "int", "uint",
          "long", "ulong", "llong", "ullong", "char16", "char32", "wchar"]
 SIGNED = {"char", "schar", "short", "int", "long", "llong", "wchar"}
